@@ -32,6 +32,9 @@ RULE = (
     "short messages (random otherwise), would-block events, EOF at every byte position, expiry at every wait, short send() returns. "
     "Distinct by (transport, sync/async, option combination, datagram category sequence prefix, outcome)."
 )
+RULE += " " + (
+    "Also: udp_with_fallback with independently varied options on both legs; replies in another question class or repeating the question; a stream of skipped datagrams each taking virtual time (at most one read after the deadline); would-block sends under the one deadline; the real asyncio backend on loopback with no time left."
+)
 ASSUMPTIONS = [
     "reference decision for datagram sequences and the independent acceptability predicate (wire walker) in this file",
     "virtual clock: dns.query.time / dns.asyncquery.time; readiness is scripted through dns.query._wait_for and the socket stand-ins",
